@@ -342,7 +342,9 @@ func (x *FnExec) contractCall(c *Contract, sig *types.Signature, key string, arg
 	if c.Trusted {
 		x.trustedUsed[shortKey(c.Key)] = true
 	}
-	if (c.Mode == "bv") != x.bv && !c.Extern {
+	// `opt anymode`: the contract's clauses contain no integer arithmetic (references, booleans, ghost flags compared with
+	// constants only), so they mean the same under both integer encodings
+	if (c.Mode == "bv") != x.bv && !c.Extern && c.Opts["anymode"] == "" {
 		if x.bv {
 			unsupp("call from bv-mode function into int-mode contract %s", c.Key)
 		}
